@@ -268,6 +268,9 @@ Proof.
   split; [apply window_mask_base | apply XInv_init; assumption].
 Qed.
 
+(* xreach_any: states after ANY history from the constructor.  xreach: the constructor state, the state after an
+   ACCEPTED call from any xreach_any state (so also after failed calls have been recovered from), and such states
+   after documented rejections - i.e. every state in which no part-way failure is pending. *)
 (* After ANY history (accepted, rejected and part-way failed calls): window and subarray in range, masks of the
    lengths of the current window / subarray, distinct keys, and the time selection inside the dumps recorded with
    the current window and subarray (spw / subarray are "always active").  After a history without part-way
@@ -546,6 +549,7 @@ Example C02_multiwindow_example :
    /\ xselect ex_xobs xs6 xc7 = (OFail, xs7) /\ xselect ex_xobs xs7 xc8 = (OOk, xs8)
    /\ xselect ex_xobs xs5 xc_neg = (OIndexError, xs5) /\ xselect ex_xobs xs5 xc_bogus = (OTypeError, xs5))
   /\ has_windows ex_xobs /\ xreach ex_xobs xs5 /\ xreach_any ex_xobs xs6
+  /\ xreach ex_xobs (snd (xselect ex_xobs xs6 [("corrprods"%string, XCore VAuto)]))
   /\ tk (x_core xs1) = map bb [0;0;0;1;1;0;0;0] /\ fk (x_core xs1) = map bb [1;1;1;1;1;1] /\ bk (x_core xs1) = bk (x_core xs0)
   /\ tk (x_core xs4) = map bb [1;1;1;0;0;0;0;0] /\ fk (x_core xs4) = map bb [1;1;1;1] /\ bk (x_core xs4) = map bb [1;0;0]
   /\ keys (sel (x_core xs6)) = ["spw"; "subarray"; "corrprods"; "scans"]%string /\ p_shape (x_pub xs6) = [1; 4; 1]
@@ -553,6 +557,7 @@ Example C02_multiwindow_example :
   /\ p_shape (x_pub xs8) = [3; 4; 3] /\ p_inputs (x_pub xs8) = [(0, 0); (1, 0); (1, 1)] /\ p_ants (x_pub xs8) = [0; 1].
 Proof.
   split; [exact ex_steps|]. split; [exact ex_windows|]. split; [exact ex_reach5|]. split; [exact ex_any6|].
+  split; [exact ex_reach_after_failure|].
   pose proof ex_masks as M. repeat split; vm_compute; reflexivity.
 Qed.
 
